@@ -803,7 +803,7 @@ func parseHandleErrors(h Helper) ([]ConfigValue, error) {
 			}
 			if strings.HasSuffix(val, "xx") {
 				val = val[:1]
-				_, err := strconv.Atoi(val)
+				_, err := strconv.ParseUint(val, 10, 16)
 				if err != nil {
 					return nil, h.Errf("bad status value '%s': %v", val, err)
 				}
@@ -813,7 +813,9 @@ func parseHandleErrors(h Helper) ([]ConfigValue, error) {
 				expression += fmt.Sprintf("{http.error.status_code} >= %s00 && {http.error.status_code} <= %s99", val, val)
 				continue
 			}
-			_, err := strconv.Atoi(val)
+			// a status code is made of digits only; a sign would pass
+			// Atoi but is not valid in the expression built below
+			_, err := strconv.ParseUint(val, 10, 16)
 			if err != nil {
 				return nil, h.Errf("bad status value '%s': %v", val, err)
 			}
